@@ -33,3 +33,17 @@ func LEBMonster(r *fw.Rand) []byte {
 		return []byte{0x80, 0x80, 0x80, 0x80, 0x10} // 2^32
 	}
 }
+
+// LEB returns the minimal LEB128 encoding of v.
+func LEB(v uint64) []byte {
+	var b []byte
+	for {
+		c := byte(v & 0x7F)
+		v >>= 7
+		if v != 0 {
+			b = append(b, c|0x80)
+		} else {
+			return append(b, c)
+		}
+	}
+}
